@@ -1958,6 +1958,14 @@ TARGETS2 = {
         ("varintBP128.c", "varintBP128BitsNeeded64", "bpBitsNeeded64"),
         ("varintBP128.c", "varintBP128MaxBitWidth64", "bpMaxBitWidth64"),
     ],
+    "C32": [
+        ("import", "CTagged", TAGGED_IMPORTS),
+        ("import", "CCSimple", "varintChainedSimple.c:varintChainedSimpleDecode64:csDecode64"),
+        ("varintTagged.c", "varintTaggedGetVarint32", "taggedGetVarint32"),
+        ("varintTagged.c", "varintTaggedPutVarint32", "taggedPutVarint32"),
+        ("varintChainedSimple.c", "varintChainedSimpleEncode32", "csEncode32"),
+        ("varintChainedSimple.c", "varintChainedSimpleDecode32Fallback", "csDecode32Fallback"),
+    ],
     "CElias": [
         ("varintElias.c", "floorLog2", "eliasFloorLog2"),
         ("varintElias.c", "varintEliasGammaBits", "eliasGammaBits"),
